@@ -273,7 +273,33 @@ def queries(h, cfg):
     return qs
 
 
+def _member_widths(cfg):
+    """strobes are one bit wide, data members as wide as the field's shape (stand-alone actions)"""
+    a = maker(cfg)().a
+    w = _width(cfg["shape"])
+    bad = []
+    for path, member, sig in a.signature.flatten(a):
+        nm = path[-1]
+        if nm.endswith("_stb") and len(sig) != 1:
+            bad.append(f"{'.'.join(map(str, path))} is {len(sig)} bits wide")
+        if nm in ("r_data", "w_data", "data", "set", "clear") and len(sig) != w:
+            bad.append(f"{'.'.join(map(str, path))} is {len(sig)} bits wide for a {w}-bit shape")
+    return bad
+
+
 def check(cfg, out, stats):
+    if not cfg.get("inreg"):
+        try:
+            bad = _member_widths(cfg)
+        except (ValueError, TypeError):
+            bad = []
+        if bad:
+            from ..bmc import mark_violation
+            mark_violation("member-widths")
+            out.violations.append({"key": f"member-widths@{cfg['cls']}:{cfg['shape']}",
+                                   "what": f"C12 {cfg['cls']}({cfg['shape']}): {'; '.join(bad[:3])}", "query": "member-widths",
+                                   "cfg": cfg, "stimulus": [], "prefix": 0, "k": 0, "detail": {}})
+            return
     run_queries(__import__(__name__, fromlist=["x"]), cfg, out, stats, cosim_cycles=12)
     if cfg["cls"].startswith("Res") and not cfg.get("inreg"):
         # "reserved fields influence nothing": the elaborated action has no state and drives none of
@@ -291,6 +317,8 @@ def check(cfg, out, stats):
 
 
 def replay(v):
+    if v["query"] == "member-widths":
+        return bool(_member_widths(v["cfg"]))
     if v["query"] == "reserved-influences-nothing":
         class O:
             violations = []
